@@ -313,7 +313,7 @@ def upper_flag(f):
     return {"-a": "-A", "-g": "-G", "-b": "-B"}[f]
 
 
-def rand_pcase(rng, focus=()):
+def rand_pcase(rng, focus=(), npairs=None):
     f = lambda name, p: rng.random() < (0.75 if name in focus else p)
     base, plant1 = S.rand_cfg(rng, focus)
     base.info_file = False
@@ -372,7 +372,7 @@ def rand_pcase(rng, focus=()):
         base.discard_trimmed = False
     p.interleaved_in = rng.random() < 0.25
     p.interleaved_out = rng.random() < 0.2
-    n = rng.choice([1, 3, 6, 10])
+    n = rng.choice([1, 3, 6, 10]) if npairs is None else npairs
     pairs = []
     for i in range(n):
         a = S.make_read(rng, i, plant1 + (plant2 if base.revcomp else []), base.fasta)
